@@ -93,6 +93,21 @@ func (r *Recorder) Case(c interface{}, nontrivial bool, labels ...string) {
 	}
 }
 
+// Cross writes a violation of another property's oracle to a side file (for triage).
+func (r *Recorder) Cross(detail string, c interface{}) {
+	out := os.Getenv("VERIF_OUT")
+	if out == "" {
+		return
+	}
+	f, err := os.OpenFile(filepath.Join(out, fmt.Sprintf("xfind-%d-%s.jsonl", shardNo(), r.Test)), os.O_CREATE|os.O_APPEND|os.O_WRONLY, 0644)
+	if err != nil {
+		return
+	}
+	l, _ := json.Marshal(map[string]interface{}{"detail": detail, "case": c})
+	f.Write(append(l, '\n'))
+	f.Close()
+}
+
 func (r *Recorder) Label(l string, n int) {
 	r.mu.Lock()
 	r.labels[l] += n
